@@ -4,4 +4,547 @@ Helper lemmas (agent model) — see the Props file that imports this module.
 import StunVerif.Lemmas.AgentMap
 namespace StunVerif.Agent
 
+/-! ### small map facts -/
+
+theorem lookup_update_isSome (out : List (Nat × Req)) (t u : Nat) (f : Req → Req) :
+    (lookup (update out t f) u).isSome = (lookup out u).isSome := by
+  by_cases h : u = t
+  · subst h; rw [lookup_update_self]; cases lookup out u <;> rfl
+  · rw [lookup_update_ne _ _ _ _ h]
+
+theorem lookup_insert_remove (out : List (Nat × Req)) (t u : Nat) (r : Req)
+    (h : lookup out t = some r) : lookup (insert (remove out t) t r) u = lookup out u := by
+  by_cases e : u = t
+  · subst e; rw [lookup_insert_self, h]
+  · rw [lookup_insert_ne _ _ _ _ e, lookup_remove_ne _ _ _ e]
+
+theorem validatedPeer_out (s : State) (a : SockAddr) : (validatedPeer s a).out = s.out := by
+  unfold validatedPeer; split <;> rfl
+
+/-! ### characterisation of `step` per call -/
+
+theorem reqPoll_new (tr : Transport) (b : Bytes) (hc : Bool) (to : SockAddr) (now : Time) :
+    reqPoll (Req.new tr b hc to) now =
+      ({ Req.new tr b hc to with lastSend := some now }, .sendData) := by
+  cases tr <;> rfl
+
+theorem step_sendReq_dup (s : State) (tid : Nat) (b : Bytes) (hc : Bool) (to : SockAddr) (now : Time)
+    (h : (lookup s.out tid).isSome = true) :
+    step s (.sendReq tid b hc to now) = (s, .inProgress) := by
+  simp only [step, h, if_true]
+
+theorem step_sendReq_new (s : State) (tid : Nat) (b : Bytes) (hc : Bool) (to : SockAddr) (now : Time)
+    (h : (lookup s.out tid).isSome = false) :
+    step s (.sendReq tid b hc to now) =
+      ({ s with out := insert s.out tid { Req.new s.transport b hc to with lastSend := some now } },
+        .transmit (some tid) (mkTransmit s { Req.new s.transport b hc to with lastSend := some now })) := by
+  simp only [step, h, reqPoll_new]
+  rfl
+
+theorem step_handle_cases (s : State) (m : InMsg) (src : SockAddr) :
+    (m.isResponse = false ∧ step s (.handle m src) = (validatedPeer s src, .incoming)) ∨
+    (m.isResponse = true ∧ lookup s.out m.tid = none ∧ step s (.handle m src) = (s, .drop)) ∨
+    (∃ r, m.isResponse = true ∧ lookup s.out m.tid = some r ∧
+      step s (.handle m src) = (validatedPeer { s with out := remove s.out m.tid } src, .response)) ∨
+    (∃ r, m.isResponse = true ∧ lookup s.out m.tid = some r ∧
+      step s (.handle m src) = ({ s with out := insert (remove s.out m.tid) m.tid r }, .drop)) := by
+  cases hr : m.isResponse with
+  | false => left; simp [step, hr]
+  | true =>
+    right
+    cases hl : lookup s.out m.tid with
+    | none => left; simp [step, hr, hl]
+    | some r =>
+      right
+      cases hc : r.hadCreds with
+      | false => left; exact ⟨r, rfl, rfl, by simp [step, hr, hl, hc]⟩
+      | true =>
+        cases hk : s.remoteCreds with
+        | none => right; exact ⟨r, rfl, rfl, by simp [step, hr, hl, hc, hk]⟩
+        | some k =>
+          cases hv : m.validUnder k with
+          | true => left; exact ⟨r, rfl, rfl, by simp [step, hr, hl, hc, hk, hv]⟩
+          | false => right; exact ⟨r, rfl, rfl, by simp [step, hr, hl, hc, hk, hv]⟩
+
+/-- what a `poll` can do: nothing (answering `WaitUntil`), or serve one outstanding transaction -/
+theorem agentPoll_cases (s : State) (now : Time) (pick : Option Nat) :
+    (∃ t, agentPoll s now pick = (s, .waitUntil t)) ∨
+    (∃ tid r, lookup s.out tid = some r ∧
+      (((reqPoll r now).2 = .sendData ∧
+        agentPoll s now pick = ({ s with out := update s.out tid fun _ => (reqPoll r now).1 },
+          .transmit (some tid) (mkTransmit s (reqPoll r now).1))) ∨
+       ((reqPoll r now).2 = .timedOut ∧
+        agentPoll s now pick = ({ s with out := remove s.out tid }, .timedOut tid)) ∨
+       ((reqPoll r now).2 = .cancelled ∧
+        agentPoll s now pick = ({ s with out := remove s.out tid }, .cancelled tid)))) := by
+  unfold agentPoll
+  simp only []
+  split
+  · exact Or.inl ⟨_, rfl⟩
+  · rename_i tid _
+    split
+    · exact Or.inl ⟨_, rfl⟩
+    · rename_i r hl
+      cases hp : reqPoll r now with
+      | mk r' ret =>
+        cases ret with
+        | waitUntil t => exact Or.inl ⟨_, rfl⟩
+        | sendData => exact Or.inr ⟨tid, r, hl, Or.inl ⟨by rw [hp], by simp [hp]⟩⟩
+        | timedOut => exact Or.inr ⟨tid, r, hl, Or.inr (Or.inl ⟨by rw [hp], by simp⟩)⟩
+        | cancelled => exact Or.inr ⟨tid, r, hl, Or.inr (Or.inr ⟨by rw [hp], by simp⟩)⟩
+
+
+/-! ### one step and the outstanding bit -/
+
+
+theorem step_lifecycle (s : State) (op : Op) (tid : Nat) :
+    match event op (step s op).2 with
+    | some (t, .started) =>
+        if t = tid then isOutstanding s tid = false ∧ isOutstanding (step s op).1 tid = true
+        else isOutstanding (step s op).1 tid = isOutstanding s tid
+    | some (t, _) =>
+        if t = tid then isOutstanding s tid = true ∧ isOutstanding (step s op).1 tid = false
+        else isOutstanding (step s op).1 tid = isOutstanding s tid
+    | none => isOutstanding (step s op).1 tid = isOutstanding s tid := by
+  cases op with
+  | sendReq t b hc to now =>
+    cases h : (lookup s.out t).isSome with
+    | true => rw [step_sendReq_dup _ _ _ _ _ _ h]; simp [event]
+    | false =>
+      rw [step_sendReq_new _ _ _ _ _ _ h]
+      simp only [event]
+      by_cases e : t = tid
+      · subst e; simp [isOutstanding, h, lookup_insert_self]
+      · have e' : tid ≠ t := fun x => e x.symm
+        simp [e, isOutstanding, lookup_insert_ne _ _ _ _ e']
+  | sendOther b to => simp [step, event]
+  | handle m src =>
+    rcases step_handle_cases s m src with ⟨_, h⟩ | ⟨_, _, h⟩ | ⟨r, _, hl, h⟩ | ⟨r, _, hl, h⟩
+    · rw [h]; simp [event, isOutstanding, validatedPeer_out]
+    · rw [h]; simp [event]
+    · rw [h]; simp only [event]
+      by_cases e : m.tid = tid
+      · subst e; simp [isOutstanding, validatedPeer_out, hl, lookup_remove_self]
+      · have e' : tid ≠ m.tid := fun x => e x.symm
+        simp [e, isOutstanding, validatedPeer_out, lookup_remove_ne _ _ _ e']
+    · rw [h]; simp [event, isOutstanding, lookup_insert_remove _ _ _ _ hl]
+  | poll now pick =>
+    have hs : step s (.poll now pick) = agentPoll s now pick := rfl
+    rw [hs]
+    rcases agentPoll_cases s now pick with ⟨t, h⟩ | ⟨t, r, hl, ⟨_, h⟩ | ⟨_, h⟩ | ⟨_, h⟩⟩
+    · rw [h]; simp [event]
+    · rw [h]; simp [event, isOutstanding, lookup_update_isSome]
+    · rw [h]; simp only [event]
+      by_cases e : t = tid
+      · subst e; simp [isOutstanding, hl, lookup_remove_self]
+      · have e' : tid ≠ t := fun x => e x.symm
+        simp [e, isOutstanding, lookup_remove_ne _ _ _ e']
+    · rw [h]; simp only [event]
+      by_cases e : t = tid
+      · subst e; simp [isOutstanding, hl, lookup_remove_self]
+      · have e' : tid ≠ t := fun x => e x.symm
+        simp [e, isOutstanding, lookup_remove_ne _ _ _ e']
+  | cancel t => simp [step, event, isOutstanding, lookup_update_isSome]
+  | cancelRtx t => simp [step, event, isOutstanding, lookup_update_isSome]
+  | configure t a b c => simp [step, event, isOutstanding, lookup_update_isSome]
+  | setRemoteCreds k => simp [step, event, isOutstanding]
+
+/-! ### unique keys -/
+
+theorem keys_insert_nodup (out : List (Nat × Req)) (t : Nat) (r : Req)
+    (h : (out.map (·.1)).Nodup) : ((insert out t r).map (·.1)).Nodup := by
+  unfold insert
+  rw [List.map_cons, List.nodup_cons, keys_remove]
+  exact ⟨by simp, List.Pairwise.filter _ h⟩
+
+theorem keys_remove_nodup (out : List (Nat × Req)) (t : Nat)
+    (h : (out.map (·.1)).Nodup) : ((remove out t).map (·.1)).Nodup := by
+  rw [keys_remove]; exact List.Pairwise.filter _ h
+
+theorem KeysNodup.step {s : State} (h : KeysNodup s) (op : Op) : KeysNodup (step s op).1 := by
+  unfold KeysNodup at h ⊢
+  cases op with
+  | sendReq t b hc to now =>
+    cases hl : (lookup s.out t).isSome with
+    | true => rw [step_sendReq_dup _ _ _ _ _ _ hl]; exact h
+    | false => rw [step_sendReq_new _ _ _ _ _ _ hl]; exact keys_insert_nodup _ _ _ h
+  | sendOther b to => exact h
+  | handle m src =>
+    rcases step_handle_cases s m src with ⟨_, e⟩ | ⟨_, _, e⟩ | ⟨r, _, hl, e⟩ | ⟨r, _, hl, e⟩
+    · rw [e, validatedPeer_out]; exact h
+    · rw [e]; exact h
+    · rw [e, validatedPeer_out]; exact keys_remove_nodup _ _ h
+    · rw [e]; exact keys_insert_nodup _ _ _ (keys_remove_nodup _ _ h)
+  | poll now pick =>
+    have hs : Agent.step s (.poll now pick) = agentPoll s now pick := rfl
+    rw [hs]
+    rcases agentPoll_cases s now pick with ⟨t, e⟩ | ⟨t, r, hl, ⟨_, e⟩ | ⟨_, e⟩ | ⟨_, e⟩⟩
+    · rw [e]; exact h
+    · rw [e]; dsimp only; rw [keys_update]; exact h
+    · rw [e]; exact keys_remove_nodup _ _ h
+    · rw [e]; exact keys_remove_nodup _ _ h
+  | cancel t => simp only [Agent.step]; rw [keys_update]; exact h
+  | cancelRtx t => simp only [Agent.step]; rw [keys_update]; exact h
+  | configure t a b c => simp only [Agent.step]; rw [keys_update]; exact h
+  | setRemoteCreds k => exact h
+
+theorem KeysNodup.of_reachable {s : State} (hr : Reachable s) : KeysNodup s :=
+  Reachable.induction (P := KeysNodup) (fun _ _ => List.nodup_nil) (fun _ op h => KeysNodup.step h op) hr
+
+/-! ### histories -/
+
+/-- alternation of life-cycle events starting from a given outstanding bit -/
+def AltFrom : Bool → List Ev → Prop
+  | _, [] => True
+  | false, e :: rest => e = .started ∧ AltFrom true rest
+  | true, e :: rest => e ≠ .started ∧ AltFrom false rest
+
+theorem AltFrom.alternates : ∀ es : List Ev, AltFrom false es → Alternates es
+  | [], _ => trivial
+  | [e], h => by
+    obtain ⟨rfl, _⟩ := h
+    trivial
+  | e :: e' :: rest, h => by
+    obtain ⟨rfl, h1, h2⟩ := h
+    exact ⟨h1, AltFrom.alternates rest h2⟩
+
+/-- the outstanding bit determined by a starting bit and the subsequent events -/
+def lastBit (b : Bool) (es : List Ev) : Bool :=
+  match es.getLast? with
+  | none => b
+  | some e => decide (e = .started)
+
+theorem lastBit_nil (b : Bool) : lastBit b [] = b := rfl
+
+theorem lastBit_cons (b : Bool) (e : Ev) (es : List Ev) :
+    lastBit b (e :: es) = lastBit (decide (e = .started)) es := by
+  cases es with
+  | nil => rfl
+  | cons e' es =>
+    simp only [lastBit, List.getLast?_cons_cons]
+    cases h : (e' :: es).getLast? with
+    | none => simp at h
+    | some x => rfl
+
+/-- the event, if any, that a step constitutes for transaction `tid` -/
+def evFor (s : State) (op : Op) (tid : Nat) : Option Ev :=
+  match event op (step s op).2 with
+  | some (t, e) => if t = tid then some e else none
+  | none => none
+
+theorem eventsOf_trace_cons (s : State) (op : Op) (ops : List Op) (tid : Nat) :
+    eventsOf (trace s (op :: ops)) tid =
+      (evFor s op tid).toList ++ eventsOf (trace (step s op).1 ops) tid := by
+  unfold eventsOf events evFor
+  rw [trace, List.filterMap_cons]
+  cases h : event op (step s op).2 with
+  | none => simp
+  | some p =>
+    obtain ⟨t, e⟩ := p
+    by_cases ht : t = tid <;> simp [ht]
+
+theorem evFor_spec (s : State) (op : Op) (tid : Nat) :
+    match evFor s op tid with
+    | none => isOutstanding (step s op).1 tid = isOutstanding s tid
+    | some e => isOutstanding s tid = !decide (e = .started) ∧
+        isOutstanding (step s op).1 tid = decide (e = .started) := by
+  have h := step_lifecycle s op tid
+  unfold evFor
+  cases he : event op (step s op).2 with
+  | none => rw [he] at h; exact h
+  | some p =>
+    obtain ⟨t, e⟩ := p
+    rw [he] at h
+    by_cases ht : t = tid
+    · cases e <;> simpa [ht] using h
+    · cases e <;> simpa [ht] using h
+
+theorem history_lifecycle (ops : List Op) : ∀ (s : State) (tid : Nat),
+    AltFrom (isOutstanding s tid) (eventsOf (trace s ops) tid) ∧
+    isOutstanding (after s ops) tid = lastBit (isOutstanding s tid) (eventsOf (trace s ops) tid) := by
+  induction ops with
+  | nil => intro s tid; exact ⟨trivial, rfl⟩
+  | cons op ops ih =>
+    intro s tid
+    have hs := evFor_spec s op tid
+    obtain ⟨ih1, ih2⟩ := ih (step s op).1 tid
+    rw [eventsOf_trace_cons, after_cons]
+    cases he : evFor s op tid with
+    | none =>
+      rw [he] at hs
+      rw [hs] at ih1 ih2
+      exact ⟨ih1, ih2⟩
+    | some e =>
+      rw [he] at hs
+      obtain ⟨h1, h2⟩ := hs
+      rw [h2] at ih1 ih2
+      simp only [Option.toList, List.cons_append, List.nil_append]
+      rw [lastBit_cons]
+      refine ⟨?_, ih2⟩
+      rw [h1]
+      cases e
+      · exact ⟨rfl, ih1⟩
+      · exact ⟨by decide, ih1⟩
+      · exact ⟨by decide, ih1⟩
+      · exact ⟨by decide, ih1⟩
+
+/-! ### liveness: a decreasing measure -/
+
+def reqWeight (r : Req) : Nat :=
+  (r.timeouts.length - r.timeoutI) + (if r.lastSend.isSome then 0 else 1) + 1
+
+def weight (out : List (Nat × Req)) : Nat := (out.map fun p => reqWeight p.2).sum
+
+theorem reqPoll_sendData_weight (r : Req) (now : Time) (h : (reqPoll r now).2 = .sendData) :
+    reqWeight (reqPoll r now).1 < reqWeight r := by
+  cases hrc : r.recvCancelled
+  case true => simp [reqPoll, hrc] at h
+  cases hsc : r.sendCancelled <;> cases hls : r.lastSend
+  case true.none => simp [reqPoll, hrc, hsc, hls] at h
+  case false.none => simp [reqPoll, hrc, hsc, hls, reqWeight]
+  all_goals
+    rename_i h0
+    by_cases h1 : r.timeoutI ≥ r.timeouts.length
+    · by_cases h2 : h0 + msNs r.lastRto > now <;> simp [reqPoll, hrc, hls, h1, h2] at h
+    · by_cases h3 : now < h0 + msNs (r.timeouts[r.timeoutI]?.getD 0)
+      · simp [reqPoll, hrc, hls, h1, h3] at h
+      · first
+        | (simp [reqPoll, hrc, hsc, hls, h1, h3] at h; done)
+        | (simp [reqPoll, hrc, hsc, hls, h1, h3, reqWeight]; omega)
+
+theorem reqPoll_wait_then_ready (r : Req) (now t : Time) (h : (reqPoll r now).2 = .waitUntil t) :
+    ∀ t', (reqPoll r t).2 ≠ .waitUntil t' := by
+  intro t'
+  cases hrc : r.recvCancelled
+  case true => simp [reqPoll, hrc] at h
+  cases hls : r.lastSend
+  case none => cases hsc : r.sendCancelled <;> simp [reqPoll, hrc, hsc, hls] at h
+  rename_i h0
+  by_cases h1 : r.timeoutI ≥ r.timeouts.length
+  · by_cases h2 : h0 + msNs r.lastRto > now
+    · simp [reqPoll, hrc, hls, h1, h2] at h
+      subst h
+      simp [reqPoll, hrc, hls, h1]
+    · simp [reqPoll, hrc, hls, h1, h2] at h
+  · by_cases h3 : now < h0 + msNs (r.timeouts[r.timeoutI]?.getD 0)
+    · simp [reqPoll, hrc, hls, h1, h3] at h
+      subst h
+      cases hsc : r.sendCancelled <;> simp [reqPoll, hrc, hls, h1, hsc]
+    · cases hsc : r.sendCancelled <;> simp [reqPoll, hrc, hls, h1, h3, hsc] at h
+
+theorem reqWeight_pos (r : Req) : 0 < reqWeight r := by unfold reqWeight; omega
+
+theorem weight_cons (p : Nat × Req) (out : List (Nat × Req)) :
+    weight (p :: out) = reqWeight p.2 + weight out := by
+  simp [weight]
+
+theorem weight_eq_zero (out : List (Nat × Req)) (h : weight out = 0) : out = [] := by
+  cases out with
+  | nil => rfl
+  | cons p out => rw [weight_cons] at h; have := reqWeight_pos p.2; omega
+
+theorem weight_remove_le (out : List (Nat × Req)) (t : Nat) : weight (remove out t) ≤ weight out := by
+  induction out with
+  | nil => exact Nat.le_refl _
+  | cons p out ih =>
+    rw [remove_cons]
+    by_cases h : p.1 = t
+    · rw [if_pos h, weight_cons]; omega
+    · rw [if_neg h, weight_cons, weight_cons]; omega
+
+theorem weight_remove_lt (out : List (Nat × Req)) (t : Nat) (r : Req) (h : lookup out t = some r) :
+    weight (remove out t) < weight out := by
+  induction out with
+  | nil => simp at h
+  | cons p out ih =>
+    rw [lookup_cons] at h
+    rw [remove_cons]
+    by_cases hp : p.1 = t
+    · rw [if_pos hp, weight_cons]
+      have := weight_remove_le out t
+      have := reqWeight_pos p.2
+      omega
+    · rw [if_neg hp] at h
+      rw [if_neg hp, weight_cons, weight_cons]
+      have := ih h
+      omega
+
+theorem update_of_not_mem (out : List (Nat × Req)) (t : Nat) (f : Req → Req)
+    (h : t ∉ out.map (·.1)) : update out t f = out := by
+  induction out with
+  | nil => rfl
+  | cons p out ih =>
+    rw [List.map_cons, List.mem_cons, not_or] at h
+    rw [update_cons, ih h.2, if_neg (fun e => h.1 e.symm)]
+
+theorem weight_update_lt (out : List (Nat × Req)) (t : Nat) (r r' : Req)
+    (hn : (out.map (·.1)).Nodup) (h : lookup out t = some r) (hw : reqWeight r' < reqWeight r) :
+    weight (update out t fun _ => r') < weight out := by
+  induction out with
+  | nil => simp at h
+  | cons p out ih =>
+    rw [lookup_cons] at h
+    rw [List.map_cons, List.nodup_cons] at hn
+    rw [update_cons]
+    by_cases hp : p.1 = t
+    · rw [if_pos hp] at h
+      injection h with h
+      rw [if_pos hp, update_of_not_mem out t _ (hp ▸ hn.1), weight_cons, weight_cons, h]
+      exact Nat.add_lt_add_right hw _
+    · rw [if_neg hp] at h
+      rw [if_neg hp, weight_cons, weight_cons]
+      have := ih hn.2 h
+      omega
+
+theorem lookup_of_mem (out : List (Nat × Req)) (t : Nat) (r : Req)
+    (hn : (out.map (·.1)).Nodup) (h : (t, r) ∈ out) : lookup out t = some r := by
+  induction out with
+  | nil => simp at h
+  | cons p out ih =>
+    rw [List.map_cons, List.nodup_cons] at hn
+    rw [lookup_cons]
+    rcases List.mem_cons.1 h with e | e
+    · subst e; simp
+    · have : p.1 ≠ t := by
+        intro e'
+        apply hn.1
+        rw [e']
+        exact List.mem_map.2 ⟨(t, r), e, rfl⟩
+      rw [if_neg this]
+      exact ih hn.2 e
+
+/-! `ready` -/
+
+theorem mem_ready (s : State) (now : Time) (t : Nat) (h : t ∈ ready s now) :
+    ∃ r, (t, r) ∈ s.out ∧ ∀ w, (reqPoll r now).2 ≠ .waitUntil w := by
+  unfold ready at h
+  obtain ⟨p, hp, rfl⟩ := List.mem_map.1 h
+  obtain ⟨hm, hf⟩ := List.mem_filter.1 hp
+  refine ⟨p.2, hm, ?_⟩
+  intro w hw
+  rw [hw] at hf
+  simp at hf
+
+theorem ready_ne_nil (s : State) (now : Time) (p : Nat × Req) (hp : p ∈ s.out)
+    (h : ∀ w, (reqPoll p.2 now).2 ≠ .waitUntil w) : ready s now ≠ [] := by
+  have : p.1 ∈ ready s now := by
+    unfold ready
+    refine List.mem_map.2 ⟨p, List.mem_filter.2 ⟨hp, ?_⟩, rfl⟩
+    cases hr : (reqPoll p.2 now).2 with
+    | waitUntil w => exact absurd hr (h w)
+    | _ => rfl
+  intro e; rw [e] at this; simp at this
+
+theorem ready_nil_all_wait (s : State) (now : Time) (h : ready s now = []) (p : Nat × Req)
+    (hp : p ∈ s.out) : ∃ w, (reqPoll p.2 now).2 = .waitUntil w := by
+  cases hr : (reqPoll p.2 now).2 with
+  | waitUntil w => exact ⟨w, rfl⟩
+  | _ =>
+    exfalso
+    apply ready_ne_nil s now p hp _ h
+    intro w hw; rw [hr] at hw; cases hw
+
+/-! ### `minWait` and the two kinds of poll -/
+
+/-- the folding step of `minWait` -/
+def minStep (now : Time) (acc : Option Time) (p : Nat × Req) : Option Time :=
+  match (reqPoll p.2 now).2 with
+  | .waitUntil t => (match acc with
+    | none => some t
+    | some a => if t < a then some t else some a)
+  | _ => acc
+
+theorem minWait_eq (s : State) (now : Time) : minWait s now = s.out.foldl (minStep now) none := rfl
+
+theorem minStep_fold (now : Time) (l : List (Nat × Req)) : ∀ acc : Option Time,
+    (acc.isSome = true ∨ ∃ p ∈ l, ∃ w, (reqPoll p.2 now).2 = .waitUntil w) →
+    ∃ t, l.foldl (minStep now) acc = some t ∧
+      (acc = some t ∨ ∃ p ∈ l, (reqPoll p.2 now).2 = .waitUntil t) := by
+  induction l with
+  | nil =>
+    intro acc h
+    rcases h with h | ⟨p, hp, _⟩
+    · cases acc with
+      | none => cases h
+      | some a => exact ⟨a, rfl, Or.inl rfl⟩
+    · cases hp
+  | cons p l ih =>
+    intro acc h
+    rw [List.foldl_cons]
+    cases hr : (reqPoll p.2 now).2 with
+    | waitUntil w =>
+      have hx : ∃ x, minStep now acc p = some x ∧ (x = w ∨ acc = some x) := by
+        unfold minStep; rw [hr]
+        cases acc with
+        | none => exact ⟨w, rfl, Or.inl rfl⟩
+        | some a =>
+          by_cases hlt : w < a
+          · exact ⟨w, by simp [hlt], Or.inl rfl⟩
+          · exact ⟨a, by simp [hlt], Or.inr rfl⟩
+      obtain ⟨x, hx1, hx2⟩ := hx
+      obtain ⟨t, ht1, ht2⟩ := ih (minStep now acc p) (Or.inl (by rw [hx1]; rfl))
+      refine ⟨t, ht1, ?_⟩
+      rcases ht2 with e | ⟨q, hq, hq'⟩
+      · rw [hx1] at e
+        injection e with e
+        subst e
+        rcases hx2 with e | e
+        · subst e; exact Or.inr ⟨p, List.mem_cons_self, hr⟩
+        · exact Or.inl e
+      · exact Or.inr ⟨q, List.mem_cons_of_mem _ hq, hq'⟩
+    | sendData | timedOut | cancelled =>
+      have hx : minStep now acc p = acc := by unfold minStep; rw [hr]
+      rw [hx]
+      have h' : acc.isSome = true ∨ ∃ q ∈ l, ∃ w, (reqPoll q.2 now).2 = .waitUntil w := by
+        rcases h with h | ⟨q, hq, w, hw⟩
+        · exact Or.inl h
+        · rcases List.mem_cons.1 hq with e | e
+          · subst e; rw [hr] at hw; cases hw
+          · exact Or.inr ⟨q, e, w, hw⟩
+      obtain ⟨t, ht1, ht2⟩ := ih acc h'
+      refine ⟨t, ht1, ?_⟩
+      rcases ht2 with e | ⟨q, hq, hq'⟩
+      · exact Or.inl e
+      · exact Or.inr ⟨q, List.mem_cons_of_mem _ hq, hq'⟩
+
+/-- nothing ready but something outstanding: the poll changes nothing and names an instant at
+    which some transaction is ready -/
+theorem poll_wait (s : State) (now : Time) (pick : Option Nat) (hr : ready s now = [])
+    (hne : s.out ≠ []) :
+    ∃ t, agentPoll s now pick = (s, .waitUntil t) ∧ ready s t ≠ [] := by
+  obtain ⟨p, hp⟩ := List.exists_mem_of_ne_nil _ hne
+  obtain ⟨t, ht1, ht2⟩ := minStep_fold now s.out none
+    (Or.inr ⟨p, hp, ready_nil_all_wait s now hr p hp⟩)
+  refine ⟨t, ?_, ?_⟩
+  · unfold agentPoll
+    rw [minWait_eq, ht1]
+    simp only [hr]
+    cases pick <;> simp
+  · rcases ht2 with e | ⟨q, hq, hq'⟩
+    · cases e
+    · exact ready_ne_nil s t q hq (reqPoll_wait_then_ready q.2 now t hq')
+
+/-- something ready: the poll serves a transaction and the measure decreases -/
+theorem poll_ready_decreases (s : State) (now : Time) (hn : KeysNodup s)
+    (hne : ready s now ≠ []) :
+    weight (agentPoll s now none).1.out < weight s.out := by
+  cases hrd : ready s now with
+  | nil => exact absurd hrd hne
+  | cons t rest =>
+    have hm : t ∈ ready s now := by rw [hrd]; exact List.mem_cons_self
+    obtain ⟨r, hr1, hr2⟩ := mem_ready s now t hm
+    have hl := lookup_of_mem s.out t r hn hr1
+    unfold agentPoll
+    simp only [hrd, List.head?_cons, hl]
+    cases hp : reqPoll r now with
+    | mk r' ret =>
+      cases ret with
+      | waitUntil w => exact absurd (by rw [hp]) (hr2 w)
+      | sendData =>
+        have := reqPoll_sendData_weight r now (by rw [hp])
+        rw [hp] at this
+        exact weight_update_lt s.out t r r' hn hl this
+      | timedOut => exact weight_remove_lt s.out t r hl
+      | cancelled => exact weight_remove_lt s.out t r hl
+
 end StunVerif.Agent
